@@ -64,6 +64,7 @@ def main(run):
     dom, succ, pred, reach = mir.dominators(b)
     # (a) calls on self are frame-preserving mutators or read accessors
     set_scheme_blocks = []
+    ctx_blocks, write_blocks = {}, {}
     for bi, t in P.calls(b):
         c = mir.callee(t) or ''
         a0 = T.operand(t['args'][0]) if t['args'] else None
@@ -71,6 +72,10 @@ def main(run):
         if not on_self:
             continue
         takes_mut = b['locals'][t['args'][0]['place']['local']].startswith("&'{erased} mut") if t['args'][0]['k'] in ('copy', 'move') else False
+        if c.endswith('::set_scheme') or c.endswith('::set_authority'):
+            ctx_blocks[bi] = (c, t['l'])
+        elif c.endswith('::set_path') or c.endswith('::path_mut'):
+            write_blocks[bi] = (c, t['l'])
         if c.endswith('::set_scheme'):
             arg = T.operand(t['args'][1])
             if arg[0] == 'agg' and arg[1] == ('adt', 'std::option::Option', 1):
@@ -102,6 +107,18 @@ def main(run):
     run.count('resolve_paths', bad[1])
     if bad[0]:
         run.violation('typestate|path', f'{P.where(b)} resolve has a path to its return on which the reference had no scheme and set_scheme(Some(..)) is not called: into_resolved would wrap a scheme-less reference as a URI/IRI (blocks {bad[0][:12]})')
+    # (c) ordering: the path is written (set_path, path_mut().normalize()) only after every call that changes which of scheme / authority
+    #     is present — the shield in front of the path is decided by the context at the time of the write (C05), so a later change of
+    #     context leaves a shield that the final text does not need (or lacks one it needs)
+    late = _context_after_write(b, succ, ctx_blocks, write_blocks)
+    run.count('ordering_paths', late[1])
+    if late[0]:
+        cb, wb = late[0]
+        run.violation(f'order|{ctx_blocks[cb][0].rsplit("::", 1)[-1]}-after-{write_blocks[wb][0].rsplit("::", 1)[-1]}',
+                      f'{P.where(b, ctx_blocks[cb][1])} resolve calls {ctx_blocks[cb][0].rsplit("::", 1)[-1]} on the reference after its path was already written '
+                      f'(line {write_blocks[wb][1]}, {write_blocks[wb][0].rsplit("::", 1)[-1]}): the path disambiguation is decided in a context that is not the final one')
+    if not write_blocks or not ctx_blocks:
+        run.violation('order|floor', f'{P.where(b)} resolve: no path-writing or no context-changing call on self found')
     # into_resolved: resolve then unchecked re-wrap of the same buffer
     ib = P.body('common::reference::RiRefBufImpl::into_resolved')
     if ib is not None:
@@ -118,13 +135,36 @@ def main(run):
     run.floor('entry_points', 6, 'resolution entry points')
     n = run.cov.get('entry_points', 0) + run.cov.get('implementors', 0) + run.cov.get('resolve_paths', 0) + npairs
     return run.finish('other', {
-        'explanation': 'entry points reach the one generic resolve (instance graph); no overrides; has-scheme typestate over every CFG path of resolve; into_resolved shape; base is plain text; family twins',
+        'explanation': 'entry points reach the one generic resolve (instance graph); no overrides; has-scheme typestate and context-before-path-write ordering over every CFG path of resolve; into_resolved shape; base is plain text; family twins',
         'evaluations': n,
         'distinct_nontrivial': run.cov.get('entry_points', 0) + run.cov.get('resolve_paths', 0),
         'rule': 'one evaluation per entry point, implementor, CFG path of resolve, twin pair',
         'exhaustive': True,
     }, assumptions=['C05/C09: the frame-preserving mutators leave the scheme untouched', 'C13: a reference with a scheme is a valid URI/IRI',
                     'that the target is the RFC 3986 section 5.2 target is NOT decided'])
+
+
+def _context_after_write(b, succ, ctx_blocks, write_blocks):
+    bad = None
+    count = 0
+    stack = [(0, (0,), None)]
+    while stack:
+        bb, path, wrote = stack.pop()
+        if bb in ctx_blocks and wrote is not None and bad is None:
+            bad = (bb, wrote)
+        if bb in write_blocks and wrote is None:
+            wrote = bb
+        t = b['blocks'][bb]['term']
+        if t['k'] == 'return':
+            count += 1
+            continue
+        for s in succ[bb]:
+            if s in path or len(path) > 400:
+                continue
+            stack.append((s, path + (s,), wrote))
+        if count > 200000:
+            break
+    return bad, count
 
 
 def _paths_without_scheme(b, succ, scheme_true, set_scheme_blocks):
